@@ -154,7 +154,9 @@ def firstChangeMS (startS atoMS tsbdMS nowMS T : Nat) (first : Nat × Nat) : Nat
   if t ≤ nowMS then t else startS * 1000
 
 /-- `calcPublishTimeMS` (`fix:` commit): the later of the two instants at which the timeline last changed -/
-def publishMS (startS atoMS tsbdMS nowMS T : Nat) (lsi : LastSeg) (entries : List (Nat × Nat)) : Nat :=
+def publishMS (startS atoMS tsbdMS nowMS T : Nat) (startNr : Int) (lsi : LastSeg) (entries : List (Nat × Nat)) : Nat :=
+  -- (`fix:` commit) the first segment of the stream never replaced another entry
+  if startNr ≤ 0 then lastSegAvailMS startS atoMS T lsi else
   match entries.head? with
   | none => lastSegAvailMS startS atoMS T lsi
   | some f => max (lastSegAvailMS startS atoMS T lsi) (firstChangeMS startS atoMS tsbdMS nowMS T f)
@@ -230,7 +232,7 @@ def liveMpdBody (a : Asset) (sets : List ASDef) (cfg : MpdCfg) (endMS : Nat) : B
     | .number => cfg.startS * 1000
     | _ => match walked.head? with
       | some (_, some (o, se)) =>
-        if o.tl.isSome then publishMS cfg.startS atoMS (cfg.tsbdS * 1000) endMS se.T se.lsi se.entries else cfg.startS * 1000
+        if o.tl.isSome then publishMS cfg.startS atoMS (cfg.tsbdS * 1000) endMS se.T se.startNr se.lsi se.entries else cfg.startS * 1000
       | _ => cfg.startS * 1000
   .ok outs pt
 
